@@ -691,13 +691,21 @@ func (cs *ContractSet) allContracts() []*Contract {
 // contractFilesFor returns the contract file for a package: /repo/<pkg>/verif_contracts.go
 // if present, else the mirror under /verif/contracts/<pkg>/verif_contracts.go.
 func contractFileFor(repo, verif, pkg string) (string, bool) {
-	p := filepath.Join(repo, pkg, "verif_contracts.go")
-	if _, err := os.Stat(p); err == nil {
-		return p, true
-	}
-	p = filepath.Join(verif, "contracts", pkg, "verif_contracts.go")
-	if _, err := os.Stat(p); err == nil {
-		return p, false
+	rp := filepath.Join(repo, pkg, "verif_contracts.go")
+	mp := filepath.Join(verif, "contracts", pkg, "verif_contracts.go")
+	rd, rerr := os.ReadFile(rp)
+	md, merr := os.ReadFile(mp)
+	switch {
+	case rerr == nil && merr == nil:
+		if string(rd) != string(md) {
+			fmt.Fprintf(os.Stderr, "note: %s differs from its mirror %s; using the mirror (run tools/sync_contracts.sh)\n", rp, mp)
+			return mp, false
+		}
+		return rp, true
+	case rerr == nil:
+		return rp, true
+	case merr == nil:
+		return mp, false
 	}
 	return "", false
 }
